@@ -116,6 +116,10 @@ var c43ErrExceptions = []ErrException{
 	{"sst.formatColblkDataBlock", "ReadAt", "debug dump"},
 }
 
+// c43N1Only, when set, restricts runC43N1 to the top-level functions it accepts (used by
+// properties that share the rule for a handful of functions only).
+var c43N1Only func(top *ssa.Function) bool
+
 // runC43N1: nil-means-exhausted needs Error().
 func runC43N1(c *Ctx) {
 	ii := c.Iface("C43.N1", "base.InternalIterator")
@@ -133,6 +137,9 @@ func runC43N1(c *Ctx) {
 		}
 		top := TopLevel(fn)
 		if top.Pkg == nil || !enginePkg(top.Pkg.Pkg.Path()) {
+			continue
+		}
+		if c43N1Only != nil && !c43N1Only(top) {
 			continue
 		}
 		// skip iterator implementations: methods of a type that itself implements InternalIterator
@@ -340,7 +347,7 @@ func runC43N1(c *Ctx) {
 			c.Ob("C43.N1", fn, "nil from "+p+" positioning is confirmed by Error()", c.P.Pos(pos), ok, detail)
 		}
 	}
-	if nSites < 6 {
+	if nSites < 6 && c43N1Only == nil {
 		c.Unresolved("C43.N1", fmt.Sprintf("only %d nil-tested positioning sites found", nSites))
 	}
 }
